@@ -51,8 +51,11 @@ PROPS = {
         explore=ce.explore_c10,
     ),
     "C18": dict(
-        modules=["JPV.Props.C18", "JPV.Props.C13"],
-        theorems=["JPV.Props.C18_boundary", "JPV.Props.C18_complete", "JPV.Props.C18_raise", "JPV.Props.C18_steps", "JPV.Props.C13_eval",
+        modules=["JPV.Props.C18", "JPV.Props.C13", "JPV.Props.C18NdGraph"],
+        theorems=["JPV.Props.C18_ndgraph_never_completes", "JPV.Props.C18_ndgraph_cycle_raises", "JPV.Props.C18_ndgraph_fuel_bound", "JPV.Props.C18_ndgraph_yielded",
+                  "JPV.Props.C18_ndgraph_outcomes", "JPV.Props.C18_ndgraph_d30_det", "JPV.Props.C18_ndgraph_d30_raises", "JPV.Props.C18_ndgraph_d30_lower",
+                  "JPV.Props.C18_ndgraph_d30_still_running", "JPV.Props.C18_ndgraph_d30_fast", "JPV.Props.C18_ndgraph_d30_default",
+                  "JPV.Props.C18_boundary", "JPV.Props.C18_complete", "JPV.Props.C18_raise", "JPV.Props.C18_steps", "JPV.Props.C13_eval",
                   "JPV.Props.C18_nd_raise", "JPV.Props.C18_nd_find_raise", "JPV.Props.C18_nd_complete",
                   "JPV.Props.C18_graph_cycle", "JPV.Props.C18_graph_boundary", "JPV.Props.C18_graph_bounded"],
         tables=[T + "env_defaults_model"],
